@@ -56,7 +56,8 @@ CLAIM = dict(
          "sequence of write/newline/indent/outdent calls the recorded code lines are strictly increasing, >= 2 and <= code_lineno "
          "(debug_info_monotone), code_lineno is 1 + the line breaks written (code_lineno_tracks_stream), every reported line is 1 or "
          "the line of an announced node (reported_line_is_a_node_line); for every increasing table get_corresponding_lineno returns "
-         "the template line of the entry whose code interval contains the line, else 1 (corresponding_lineno_spec); "
+         "the template line of the entry whose code interval contains the line, else 1 (corresponding_lineno_spec; composed with "
+         "monotonicity for every generated table: generated_table_lookup); "
          "decode(encode t) = t for the debug_info string (debug_info_roundtrip); after newline(node); write(x) in any history with a "
          "previous write, the line on which x starts and every later code line map back to node.lineno until a node on another line "
          "is announced (node_line_recorded, node_text_line; first_write_records_nothing shows the hypothesis is needed). Tie: the real "
@@ -530,7 +531,7 @@ def part_runtime(ctx, res, jinja2, cov, tmp):
                         f"construct is in {exp_file!r} (line {e})", rp)
         elif ln != e:
             stats["wrong_line"] += 1
-            key = f"C35:runtime:{site.kind}" if site.kind in ("with", "autoescape") else f"C35:runtime:{site.kind}:{site.form}"
+            key = f"C35:runtime:{site.kind}" + (":compare" if site.form == "compare" and site.kind in ("out", "forif") else "")
             res.violate(key, f"{site_desc(cs)}: innermost template frame {fn}:{ln}, the raising construct's "
                         f"anchor token is on line {e}", rp)
     cov["runtime"] = stats
@@ -677,7 +678,7 @@ def run(ctx, res):
 def replay(ctx, case):
     jinja2 = core.import_jinja()
     cs = case["case"]
-    c = lc.CONFIGS[cs["config"]]
+    c = lc.CONFIGS[cs.get("config", "default")]
     if cs.get("part") == "runtime":
         tmp = tempfile.mkdtemp(prefix="c35-")
         try:
